@@ -213,16 +213,42 @@ func (ft *FuncTr) instr(b *ssa.BasicBlock, st *State, at *Term, in ssa.Instructi
 		} else {
 			fnv = ft.val(x.Call.Value)
 		}
+		armed := ""
 		if !blockDominatesAllReturns(b, ft.fn) {
-			return false, unsupported("conditional defer")
+			// conditional defer: executed only on some paths to a return. A ghost flag records whether it was
+			// executed; the deferred call then runs under that flag.
+			if ft.loopOf[b] != nil {
+				return false, unsupported("defer inside a loop")
+			}
+			armed = deferFlag(x)
+			st.ghost[armed] = TTrue
 		}
-		ft.defers = append(ft.defers, deferred{call: x, args: args, fnv: fnv, at: at})
+		ft.defers = append(ft.defers, deferred{call: x, args: args, fnv: fnv, at: at, armed: armed})
 	case *ssa.RunDefers:
 		for i := len(ft.defers) - 1; i >= 0; i-- {
 			df := ft.defers[i]
-			if _, err := ft.callWith(st, at, df.call, df.call.Common(), nil, df.args, df.fnv); err != nil {
+			if df.armed == "" {
+				if _, err := ft.callWith(st, at, df.call, df.call.Common(), nil, df.args, df.fnv); err != nil {
+					return false, err
+				}
+				continue
+			}
+			flag, ok := st.ghost[df.armed]
+			if !ok || flag.S == "false" {
+				continue // not executed on any path reaching this return
+			}
+			if flag.S == "true" {
+				if _, err := ft.callWith(st, at, df.call, df.call.Common(), nil, df.args, df.fnv); err != nil {
+					return false, err
+				}
+				continue
+			}
+			st2 := st.clone()
+			if _, err := ft.callWith(st2, And(at, flag), df.call, df.call.Common(), nil, df.args, df.fnv); err != nil {
 				return false, err
 			}
+			m := ft.mergeStates(b, []Edge{{b, And(at, Not(flag)), st}, {b, And(at, flag), st2}})
+			*st = *m
 		}
 	case *ssa.If:
 		c := ft.term(x.Cond)
@@ -855,6 +881,7 @@ func (ft *FuncTr) next(st *State, at *Term, x *ssa.Next) error {
 	ft.assumeRaw(Eq(vc, v))
 	ft.assume(at, ft.typeInv(st, vc, mt.Elem()))
 	st.iters[r] = Ite(ok, Store(visited, k, TTrue), visited)
+	st.ghost[iterKeyName(r)] = k // curkey(n)
 	ft.vals[x] = Val{Tuple: []Val{{T: ok}, {T: k}, {T: vc}}}
 	return nil
 }
@@ -1043,3 +1070,6 @@ func sortedKeysT(m map[string]*Term) []string {
 	sort.Strings(out)
 	return out
 }
+
+// iterKeyName: ghost variable holding the key chosen by the latest Next of map iteration r (spec: curkey(n)).
+func iterKeyName(r *ssa.Range) string { return fmt.Sprintf("$key_%d", int(r.Pos())) }
